@@ -56,6 +56,14 @@ def run(F, rep, tier):
     # visiting function is dropped or turned into a plain value
     import tc
     tc.dropped_results(F, rep, "DROPPED-ERROR", ["sylt_compiler::name_resolution::"])
+    # a qualified name that its module does not have is undeclared - it is not looked up in the scope of the use (shared with C12)
+    import core
+    import c12
+    core.borrow(rep, c12.isolation, lambda o: o["rule"] == "ISOLATION" and "namespace-member-from-that-namespace-only" in o["key"], F)
+    # the implicit binder `self` (and the name of a function inside its own body) is in scope whatever parentheses stand around
+    # the function literal (shared with C14)
+    import c14
+    core.borrow(rep, c14.paren_transparent, lambda o: o["rule"] == "PARENS" and "|shape-test#" in o["key"], F)
 
 
 def scope_rules(F, rep, rule):
